@@ -161,7 +161,13 @@ def next_key_phase(self: CryptoContext) -> CryptoContext:
     crypto.setup(
         cipher_suite=self.cipher_suite,
         secret=hkdf_expand_label(
-            algorithm, self.secret, b"quic ku", b"", algorithm.digest_size
+            algorithm,
+            self.secret,
+            b"quicv2 ku"
+            if self.version == QuicProtocolVersion.VERSION_2
+            else b"quic ku",
+            b"",
+            algorithm.digest_size,
         ),
         version=self.version,
     )
